@@ -44,21 +44,21 @@ Definition zops : fops Z :=
   mkF Z Z.add Z.sub Z.mul Z.quot Z.opp Z.eqb Z.ltb Z.leb (fun z => z) (fun z => z) show_Z show_Z.
 Definition S_ (s : string) := ELit (LStr s).
 Definition kA : cdecl :=
-  mkClass "A" None [mkField false false TInt "a" (Some (ELit (LInt 1))); mkField true false TInt "cnt" (Some (ELit (LInt 0)))]
+  mkClass "A" None [mkField false false TInt "a" (Some (ELit (LInt 1))) VPub; mkField true false TInt "cnt" (Some (ELit (LInt 0))) VPub]
     [mkCtor [(TInt, "v")] None [SEcho (S_ "A.ctor"); SExpr (EFieldSet EThis "a" (EVar "v"));
-                                SExpr (ESFieldSet "A" "cnt" (EBin OAdd (ESField "A" "cnt") (ELit (LInt 1))))] false]
-    [mkMeth "name" [] TStr [SReturn (Some (EBin OAdd (S_ "A") (EVar "a")))] false true]
-    (Some [SEcho (S_ "~A")]).
+                                SExpr (ESFieldSet "A" "cnt" (EBin OAdd (ESField "A" "cnt") (ELit (LInt 1))))] false VPub]
+    [mkMeth "name" [] TStr [SReturn (Some (EBin OAdd (S_ "A") (EVar "a")))] false true VPub]
+    (Some [SEcho (S_ "~A")]) KNormal.
 Definition kB : cdecl :=
-  mkClass "B" (Some "A") [mkField false false TInt "b" (Some (EBin OAdd (EVar "a") (ELit (LInt 10))))]
-    [mkCtor [(TInt, "a")] (Some [EBin OAdd (EVar "a") (ELit (LInt 1))]) [SEcho (EBin OAdd (S_ "B.ctor b=") (EField EThis "b"))] false]
-    [mkMeth "name" [] TStr [SReturn (Some (EBin OAdd (S_ "B>") (ESuperCall "name" [])))] false true]
-    (Some [SEcho (S_ "~B")]).
+  mkClass "B" (Some "A") [mkField false false TInt "b" (Some (EBin OAdd (EVar "a") (ELit (LInt 10)))) VPub]
+    [mkCtor [(TInt, "a")] (Some [EBin OAdd (EVar "a") (ELit (LInt 1))]) [SEcho (EBin OAdd (S_ "B.ctor b=") (EField EThis "b"))] false VPub]
+    [mkMeth "name" [] TStr [SReturn (Some (EBin OAdd (S_ "B>") (ESuperCall "name" [])))] false true VPub]
+    (Some [SEcho (S_ "~B")]) KNormal.
 Definition kC : cdecl :=
   mkClass "C" (Some "B") []
-    [mkCtor [] (Some [ELit (LInt 4)]) [SEcho (S_ "C.ctor")] false]
-    [mkMeth "name" [] TStr [SReturn (Some (EBin OAdd (S_ "C>") (ESuperCall "name" [])))] false true]
-    (Some [SEcho (S_ "~C")]).
+    [mkCtor [] (Some [ELit (LInt 4)]) [SEcho (S_ "C.ctor")] false VPub]
+    [mkMeth "name" [] TStr [SReturn (Some (EBin OAdd (S_ "C>") (ESuperCall "name" [])))] false true VPub]
+    (Some [SEcho (S_ "~C")]) KNormal.
 Definition demo : program :=
   mkProg [kC; kA; kB]      (* declaration order is irrelevant *)
     [mkFn "main" [] TVoid
